@@ -1,8 +1,211 @@
 /-
-C17 — property theorems (stub; see DESIGN.md §6).
+C17 — BARTMAP checkerboard.
+
+"After BARTMAP.fit on any data matrix, rows_ and columns_ have one row per
+(row-cluster, column-cluster) pair and widths equal to the numbers of matrix
+rows and columns respectively, and every matrix cell belongs to exactly one
+bicluster.  Bicluster membership agrees with row_labels_ and column_labels_, and
+the column clustering equals what the column module alone produces on the
+transposed matrix."
+
+Property theorems only; helper lemmas live in ArtProofs.Bartmap.  The model is
+`ArtModel/Bartmap.lean`; the Pearson-correlation reset function is an oracle
+parameter `veto`, so every theorem holds for *every* answer pattern of that
+test.  Outside the theorems (typed model cannot raise): the real test raises on
+non-square matrices and on column clusters of width 1 (finding F13, recorded by
+the check as C17-a / C17-b); whenever `fit` returns, the statements below apply.
 -/
-import ArtModel.Basic
+import ArtProofs.Bartmap
 
 namespace Art.C17
+open Art.Bartmap
+
+/-- **Shapes.**  `rows_` and `columns_` have one row per (row-cluster,
+column-cluster) pair; every row of `rows_` is as wide as the number of matrix
+rows (= number of row labels), every row of `columns_` as wide as the number of
+matrix columns. -/
+theorem bartmap_shapes (na nb : Nat) (rowLabels colLabels : List Nat) :
+    (rowsOf na nb rowLabels).length = na * nb ∧
+    (columnsOf na nb colLabels).length = na * nb ∧
+    (∀ r ∈ rowsOf na nb rowLabels, r.length = rowLabels.length) ∧
+    (∀ c ∈ columnsOf na nb colLabels, c.length = colLabels.length) := by
+  refine ⟨rowsOf_length na nb rowLabels, columnsOf_length na nb colLabels, ?_, ?_⟩
+  · intro r hr
+    rw [rowsOf_eq] at hr
+    simp only [List.mem_map] at hr
+    obtain ⟨k, _, rfl⟩ := hr
+    simp
+  · intro c hc
+    rw [columnsOf_eq] at hc
+    simp only [List.mem_map] at hc
+    obtain ⟨k, _, rfl⟩ := hc
+    simp
+
+/-- **Membership agrees with the labels.**  Bicluster `(a, b)` sits at index
+`a·nb + b`; matrix row `i` is in it iff `row_labels_[i] = a`, matrix column `j`
+iff `column_labels_[j] = b` (indices outside the matrix are in no bicluster). -/
+theorem bartmap_membership_agrees (na nb : Nat) (rowLabels colLabels : List Nat)
+    (a b : Nat) (ha : a < na) (hb : b < nb) :
+    (∀ i, memberAt (rowsOf na nb rowLabels) (a * nb + b) i = true ↔ rowLabels[i]? = some a) ∧
+    (∀ j, memberAt (columnsOf na nb colLabels) (a * nb + b) j = true ↔ colLabels[j]? = some b) := by
+  obtain ⟨h1, h2, h3⟩ := pair_index ha hb
+  constructor
+  · intro i; simp [memberAt_rowsOf, h1, h2]
+  · intro j; simp [memberAt_columnsOf, h1, h3]
+
+/-- **Partition.**  If every row label is below the number of row clusters and
+every column label below the number of column clusters (C05, discharged for the
+fitted model in `bartmap_fit_partition`), every matrix cell `(i, j)` lies in
+exactly one bicluster: the one at index `row_labels_[i]·nb + column_labels_[j]`. -/
+theorem bartmap_partition (na nb : Nat) (rowLabels colLabels : List Nat)
+    (hr : ∀ l ∈ rowLabels, l < na) (hc : ∀ l ∈ colLabels, l < nb)
+    (i j : Nat) (hi : i < rowLabels.length) (hj : j < colLabels.length) :
+    cellBiclusters (rowsOf na nb rowLabels) (columnsOf na nb colLabels) i j =
+      [rowLabels[i] * nb + colLabels[j]] := by
+  have ha := hr _ (List.getElem_mem hi)
+  have hb := hc _ (List.getElem_mem hj)
+  obtain ⟨h1, h2, h3⟩ := pair_index ha hb
+  unfold cellBiclusters
+  rw [rowsOf_length]
+  apply filter_range_unique _ _ _ h1
+  intro k hk
+  simp only [memberAt_rowsOf, memberAt_columnsOf, hk, decide_true, Bool.true_and,
+    Bool.and_eq_true, decide_eq_true_eq, List.getElem?_eq_getElem hi, List.getElem?_eq_getElem hj,
+    Option.some.injEq]
+  obtain ⟨_, _, d3⟩ := pair_decode hk
+  constructor
+  · rintro ⟨e1, e2⟩; rw [e1, e2]; exact d3
+  · intro e; subst e; exact ⟨h2.symm, h3.symm⟩
+
+/-- The range hypothesis of `bartmap_partition` is needed: a row whose label is
+not below `na` belongs to no bicluster at all. -/
+theorem bartmap_partition_needs_range (na nb : Nat) (rowLabels colLabels : List Nat)
+    (i j : Nat) (hi : i < rowLabels.length) (hbad : na ≤ rowLabels[i]) :
+    cellBiclusters (rowsOf na nb rowLabels) (columnsOf na nb colLabels) i j = [] := by
+  unfold cellBiclusters
+  rw [rowsOf_length]
+  apply filter_range_none
+  intro k hk
+  obtain ⟨d1, _, _⟩ := pair_decode hk
+  have : ¬ rowLabels[i] = k / nb := by omega
+  simp [memberAt_rowsOf, hk, List.getElem?_eq_getElem hi, this]
+
+section
+variable {Xa Wa Xb Wb α μa θa β μb θb : Type} [LinearOrder α] [LinearOrder β]
+
+/-- **The column clustering is the column module alone.**  The `module_b` part
+of the fitted BARTMAP is `fit` of the column kernel, without any reset function,
+on the (prepared) transposed matrix — whatever the row side, `eta` or the veto
+do, and whatever state the module was in before.  This is *definitional* in the
+model (`rfl`): `bartmapFit` trains the column module first and never touches it
+again, exactly as `BARTMAP.fit` does; that the code really does so is what the
+correspondence check ties down (fresh copy of the column module fitted alone). -/
+theorem bartmap_columns_alone (Ka : Kernel Xa Wa α μa) (cfga : SearchCfg μa θa) (tha : θa)
+    (Kb : Kernel Xb Wb β μb) (cfgb : SearchCfg μb θb) (thb : θb)
+    (veto : Xa → Nat → Bool) (rowsX : List Xa) (colsX : List Xb) (s0 : ArtState Wb) :
+    (bartmapFit Ka cfga tha Kb cfgb thb veto rowsX colsX).b = fit Kb cfgb thb noVeto s0 colsX ∧
+    (bartmapFit Ka cfga tha Kb cfgb thb veto rowsX colsX).cols =
+      columnsOf (bartmapFit Ka cfga tha Kb cfgb thb veto rowsX colsX).a.W.length
+        (fit Kb cfgb thb noVeto s0 colsX).W.length (fit Kb cfgb thb noVeto s0 colsX).labels :=
+  ⟨rfl, rfl⟩
+
+/-- **The row clustering is the generic search under the correlation veto.**
+The `module_a` part is the generic training fold (`fit` = fold of `stepFit`,
+ArtModel.Search) with the veto as reset function, so the C01 theorems apply to
+every row step and the C05 label invariant holds: one label per matrix row,
+every label below the number of row categories, at most one category per row. -/
+theorem bartmap_rows_are_generic_search (Ka : Kernel Xa Wa α μa) (cfga : SearchCfg μa θa)
+    (tha : θa) (Kb : Kernel Xb Wb β μb) (cfgb : SearchCfg μb θb) (thb : θb)
+    (veto : Xa → Nat → Bool) (rowsX : List Xa) (colsX : List Xb) (s0 : ArtState Wa) :
+    let r := bartmapFit Ka cfga tha Kb cfgb thb veto rowsX colsX
+    r.a = fit Ka cfga tha (fun _ x c => veto x c) s0 rowsX ∧
+    (∀ l ∈ r.a.labels, l < r.a.W.length) ∧
+    r.a.labels.length = rowsX.length ∧
+    r.a.W.length ≤ rowsX.length := by
+  intro r
+  obtain ⟨h1, h2, h3⟩ := fit_labels_lt Ka cfga tha (fun _ x c => veto x c) s0 rowsX
+  exact ⟨rfl, h1, h2, h3⟩
+
+/-- **C17 for the fitted model, no side hypotheses.**  For every pair of
+kernels, configurations, veto oracle and data: `rows_`/`columns_` have
+`na·nb` rows of widths (#matrix rows, #matrix columns), and every matrix cell
+lies in exactly one bicluster, the one its two labels name. -/
+theorem bartmap_fit_partition (Ka : Kernel Xa Wa α μa) (cfga : SearchCfg μa θa) (tha : θa)
+    (Kb : Kernel Xb Wb β μb) (cfgb : SearchCfg μb θb) (thb : θb)
+    (veto : Xa → Nat → Bool) (rowsX : List Xa) (colsX : List Xb) :
+    let r := bartmapFit Ka cfga tha Kb cfgb thb veto rowsX colsX
+    r.rows.length = r.a.W.length * r.b.W.length ∧
+    r.cols.length = r.a.W.length * r.b.W.length ∧
+    (∀ m ∈ r.rows, m.length = rowsX.length) ∧
+    (∀ m ∈ r.cols, m.length = colsX.length) ∧
+    ∀ i j (hi : i < r.a.labels.length) (hj : j < r.b.labels.length),
+      i < rowsX.length ∧ j < colsX.length ∧
+      cellBiclusters r.rows r.cols i j = [r.a.labels[i] * r.b.W.length + r.b.labels[j]] := by
+  intro r
+  obtain ⟨a1, a2, _⟩ := fit_labels_lt Ka cfga tha (fun _ x c => veto x c) {} rowsX
+  obtain ⟨b1, b2, _⟩ := fit_labels_lt Kb cfgb thb (noVeto (S := ArtState Wb)) {} colsX
+  obtain ⟨s1, s2, s3, s4⟩ := bartmap_shapes r.a.W.length r.b.W.length r.a.labels r.b.labels
+  refine ⟨s1, s2, ?_, ?_, ?_⟩
+  · intro m hm; rw [s3 m hm]; exact a2
+  · intro m hm; rw [s4 m hm]; exact b2
+  · intro i j hi hj
+    refine ⟨a2 ▸ hi, b2 ▸ hj, ?_⟩
+    exact bartmap_partition r.a.W.length r.b.W.length r.a.labels r.b.labels a1 b1 i j hi hj
+
+end
+
+/-! ### Non-vacuity: 2 row clusters × 3 column clusters on a 4 × 5 matrix -/
+
+/-- `rows_` for row labels `[0,1,1,0]`: 6 masks of width 4, `a`-major -/
+example : rowsOf 2 3 [0, 1, 1, 0] =
+    [[true, false, false, true], [true, false, false, true], [true, false, false, true],
+     [false, true, true, false], [false, true, true, false], [false, true, true, false]] := by
+  decide
+
+/-- `columns_` for column labels `[0,1,2,1,0]`: 6 masks of width 5 -/
+example : columnsOf 2 3 [0, 1, 2, 1, 0] =
+    [[true, false, false, false, true], [false, true, false, true, false],
+     [false, false, true, false, false],
+     [true, false, false, false, true], [false, true, false, true, false],
+     [false, false, true, false, false]] := by
+  decide
+
+/-- cell (2,3): row cluster 1, column cluster 1 → exactly bicluster 1·3+1 = 4 -/
+example : cellBiclusters (rowsOf 2 3 [0, 1, 1, 0]) (columnsOf 2 3 [0, 1, 2, 1, 0]) 2 3 = [4] := by
+  decide
+
+/-- every one of the 20 cells lies in exactly one bicluster, the predicted one -/
+example : ∀ i ∈ List.range 4, ∀ j ∈ List.range 5,
+    cellBiclusters (rowsOf 2 3 [0, 1, 1, 0]) (columnsOf 2 3 [0, 1, 2, 1, 0]) i j =
+      [[0, 1, 1, 0][i]! * 3 + [0, 1, 2, 1, 0][j]!] := by
+  decide
+
+/-- the hypotheses of `bartmap_partition` are satisfiable on that instance -/
+example : cellBiclusters (rowsOf 2 3 [0, 1, 1, 0]) (columnsOf 2 3 [0, 1, 2, 1, 0]) 3 2 = [0 * 3 + 2] :=
+  bartmap_partition 2 3 [0, 1, 1, 0] [0, 1, 2, 1, 0] (by decide) (by decide) 3 2 (by decide) (by decide)
+
+/-- an out-of-range label (row label 2 with only 2 row clusters) leaves its cells uncovered -/
+example : cellBiclusters (rowsOf 2 3 [0, 2, 1, 0]) (columnsOf 2 3 [0, 1, 2, 1, 0]) 1 0 = [] := by
+  decide
+
+/-- A toy one-dimensional kernel: a category is a prototype, the activation is
+`100 − |x − w|`, the match value is `|x − w|`, vigilance accepts distance ≤ 2. -/
+private def toyK : Kernel Nat Nat Nat Nat :=
+  { choice := fun _ x w => some (100 - (x - w) - (w - x))
+    matchv := fun x w => (x - w) + (w - x)
+    update := fun _ w => w
+    newW := fun x => x }
+
+private def toyCfg : SearchCfg Nat Nat :=
+  { passes := fun th m => decide (m ≤ th), track := fun _ m => m, keep := true, tilde := false }
+
+/-- `bartmapFit` end to end: 4 matrix rows (prepared: 10, 11, 30, 12), 5 matrix
+columns (prepared: 5, 50, 90, 51, 6); the veto forbids every resonance of the
+row `12`, so it opens a third row cluster although it matches cluster 0. -/
+example :
+    let r := bartmapFit toyK toyCfg 2 toyK toyCfg 2 (fun x _ => x == 12) [10, 11, 30, 12] [5, 50, 90, 51, 6]
+    r.a.labels = [0, 0, 1, 2] ∧ r.b.labels = [0, 1, 2, 1, 0] ∧ r.rows.length = 9 ∧
+    cellBiclusters r.rows r.cols 3 3 = [2 * 3 + 1] := by
+  decide
 
 end Art.C17
